@@ -318,7 +318,7 @@ def data_attr(mode):
             "instantiate": "#[sv::data(instantiate)]", "instantiate_opt": "#[sv::data(instantiate, opt)]"}[mode]
 
 
-def gen_reply_table(rng, prog, n_names=None, force_modes=None, stage_merge=False):
+def gen_reply_table(rng, prog, n_names=None, force_modes=None, stage_merge=False, stage_shared=False):
     """Adds reply methods to the contract part of `prog` (valid table).  Returns the table:
     {"names": {name: {"cover": "s|e|se|a", "payload": sig}}, "methods": [...]}, sig = "raw" or [ti...]."""
     prog["replies"] = True
@@ -327,6 +327,8 @@ def gen_reply_table(rng, prog, n_names=None, force_modes=None, stage_merge=False
         n_names = rng.choice([1, 2, 2, 3, 4])
     if stage_merge:
         n_names = max(n_names, 3)
+    if stage_shared:
+        n_names = max(n_names, 2)
     names = rng.sample(REPLY_NAMES, n_names)
     table = {"names": {}, "methods": []}
     staged_sig = None
@@ -335,6 +337,9 @@ def gen_reply_table(rng, prog, n_names=None, force_modes=None, stage_merge=False
         if stage_merge and idx < 2:
             # names[0] is served by a success and an error method, names[1] by the same error method (listed after names[0])
             cover = "se" if idx == 0 else "e"
+        if stage_shared and idx < 2:
+            # two names, each with a success method of its own, sharing one error method declared below both
+            cover = "se"
         c = rng.random()
         if c < 0.3:
             sig = "raw"
@@ -350,9 +355,9 @@ def gen_reply_table(rng, prog, n_names=None, force_modes=None, stage_merge=False
             if len(sig) >= 2 and rng.random() < 0.3:
                 # a 128-bit primitive among several payload values (a JSON number beyond the 64-bit range)
                 sig[rng.randrange(len(sig))] = intern_type(prog, rng.choice([T.U128, T.I128, T.vec(T.U128)]))
-        if stage_merge and idx == 0:
+        if (stage_merge or stage_shared) and idx == 0:
             staged_sig = sig
-        if stage_merge and idx == 1:
+        if (stage_merge or stage_shared) and idx == 1:
             sig = staged_sig
         table["names"][nm] = {"cover": cover, "payload": sig}
     # methods: group names with the same payload signature under shared methods sometimes
@@ -410,12 +415,22 @@ def gen_reply_table(rng, prog, n_names=None, force_modes=None, stage_merge=False
                 want = [names[0], names[1]] + [n for n in want if n not in names[:2]]
                 new_method(outcome, want[:2], sig)
                 want = want[2:]
+            if stage_shared and names[0] in want and names[1] in want:
+                if letter == "s":
+                    new_method(outcome, [names[0]], sig)
+                    new_method(outcome, [names[1]], sig)
+                else:
+                    new_method(outcome, [names[0], names[1]], sig)
+                want = [n for n in want if n not in names[:2]]
             while want:
                 k = rng.choice([1, 1, 2, len(want)])
                 served, want = want[:k], want[k:]
                 new_method(outcome, served, sig)
     rng.shuffle(table["methods"])
     _stage_merged_then_new(rng, table["methods"], always=stage_merge)
+    if stage_shared:
+        shared = [m for m in table["methods"] if m["reply_on"] == "error" and set(names[:2]) <= set(m["serves"])]
+        table["methods"][:] = [m for m in table["methods"] if m not in shared] + shared
     cpart["handlers"] += table["methods"]
     prog["reply_table"] = table
     return table
